@@ -139,19 +139,22 @@ def apply_path(input, context, path="$", throw_exception_on_failed_match=True):
         execution moves from state to state, so a reference into it would
         change after it had been selected.
         """
-        raw_result = copy.deepcopy(
-            apply_jsonpath(context, path, throw_exception_on_failed_match)
-        )
-        if path == "$.Task.Token":
+        task = context.get("Task") if isinstance(context, dict) else None
+        if isinstance(task, dict) and isinstance(task.get("Token"), str):
             """
-            If the query is for a TaskToken we base64 result to make it "opaque".
+            If the Context holds a TaskToken we base64 it to make it "opaque".
             We do it here rather than when we insert the TaskToken into the
             Context as we only need to make it opaque when it is actually used.
+            It is done on a view of the Context before the path is applied,
+            so that every way of writing the path ($$.Task.Token,
+            $$.Task['Token'], $$.Task, ...) selects the same opaque token.
             """
-            input_bytes = bytes(raw_result, "utf-8")  # Get bytes from string
-            return base64.b64encode(input_bytes).decode("utf-8")
-        else:
-            return raw_result
+            input_bytes = bytes(task["Token"], "utf-8")  # Get bytes from string
+            opaque = base64.b64encode(input_bytes).decode("utf-8")
+            context = dict(context, Task=dict(task, Token=opaque))
+        return copy.deepcopy(
+            apply_jsonpath(context, path, throw_exception_on_failed_match)
+        )
     else:
         return apply_jsonpath(input, path, throw_exception_on_failed_match)
 
